@@ -5,7 +5,7 @@ of a feed whose contents the solver chooses.  A constant, a cached value, a valu
 across calls cannot be equal to an arbitrary fresh feed element, so the equality checks below are falsifiable exactly then."""
 from vlib.h import ob
 from harness import encfix
-from harness.encfix import Cipher, Feed, S2K
+from harness.encfix import Cipher, Feed, S2K, RFC_KEY_OCTETS, RFC_BLOCK_OCTETS
 from harness.sigfix import *          # noqa
 from harness.c03 import PK, ENCPUB, ENCKEY        # noqa: installs the public-key stand-ins
 from harness.c06 import key_of, privfields
@@ -22,7 +22,8 @@ OUTSIDE = ['quality of the operating-system random source', 'ECDH ephemeral key 
            'that a new ephemeral key is made per encryption is NOT decided', 'randomness used while *generating* keys']
 ASSUMPTIONS = []
 
-ALGS = (K.SymmetricKeyAlgorithm.CAST5, K.SymmetricKeyAlgorithm.AES128, K.SymmetricKeyAlgorithm.AES192, K.SymmetricKeyAlgorithm.AES256, K.SymmetricKeyAlgorithm.TripleDES)
+ALGS = (K.SymmetricKeyAlgorithm.CAST5, K.SymmetricKeyAlgorithm.AES128, K.SymmetricKeyAlgorithm.AES192, K.SymmetricKeyAlgorithm.AES256, K.SymmetricKeyAlgorithm.TripleDES,
+        K.SymmetricKeyAlgorithm.Blowfish, K.SymmetricKeyAlgorithm.Camellia128, K.SymmetricKeyAlgorithm.Camellia192, K.SymmetricKeyAlgorithm.Camellia256)
 
 
 def pick(ai):
@@ -38,17 +39,17 @@ def fit(b, n):
 
 @ob('O13.1', 'passphrase encryption: the session key, the S2K salt and the data prefix are three distinct draws from the entropy source with the sizes of '
              'key, 8 and block; a second encryption of the same message draws three new ones; none of them depends on the message',
-    'cipher over {CAST5, AES128, AES192, AES256, 3DES}; six fully symbolic feed elements (32 octets each, truncated to the size asked for); body of 0..1 symbolic octets',
-    cond_timeout={'q': 280, 't': 900}, flags=('lazyhex',), partitions=[['ai == %d' % i] for i in range(5)])
+    'cipher over all 9 supported ones (sizes checked against RFC 4880 / 5581 tables); six fully symbolic feed elements (32 octets each, truncated to the size asked for); body of 0..1 symbolic octets',
+    cond_timeout={'q': 280, 't': 900}, flags=('lazyhex',), partitions=[['ai == %d' % i] for i in range(9)])
 def msg_encrypt_entropy(ai: int, body: bytes, e0: bytes, e1: bytes, e2: bytes, e3: bytes, e4: bytes, e5: bytes) -> bool:
     """
-    pre: 0 <= ai < 5
+    pre: 0 <= ai < 9
     pre: len(body) <= 1
     pre: len(e0) == 32 and len(e1) == 32 and len(e2) == 32 and len(e3) == 32 and len(e4) == 32 and len(e5) == 32
     post: _
     """
     alg = pick(ai)
-    ks, bs = alg.key_size // 8, alg.block_size // 8
+    ks, bs = RFC_KEY_OCTETS[int(alg)], RFC_BLOCK_OCTETS[int(alg)]          # sizes from the RFCs, not from PGPy's own tables
     msg = PGPMessage.new(bytes(body), compression=K.CompressionAlgorithm.Uncompressed, file=False, format='b')
     Feed.reset([e0, e1, e2, e3, e4, e5])
     for rnd, (ek, es, ep) in enumerate(((e0, e1, e2), (e3, e4, e5))):
@@ -75,16 +76,16 @@ def msg_encrypt_entropy(ai: int, body: bytes, e0: bytes, e1: bytes, e2: bytes, e
 
 
 @ob('O13.2', 'public-key encryption: the session key and the data prefix are distinct draws of key size and block size; each call draws new ones',
-    'cipher over {CAST5, AES128, AES256}; four symbolic feed elements; body of 0..1 symbolic octets', cond_timeout={'q': 280, 't': 900}, flags=('lazyhex',), partitions=[['ai in (0,)'], ['ai == 1'], ['ai == 3']])
+    'cipher over {CAST5, AES128, AES256, Camellia192}; four symbolic feed elements; body of 0..1 symbolic octets', cond_timeout={'q': 280, 't': 900}, flags=('lazyhex',), partitions=[['ai == 0'], ['ai == 1'], ['ai == 3'], ['ai == 7']])
 def key_encrypt_entropy(ai: int, body: bytes, e0: bytes, e1: bytes, e2: bytes, e3: bytes) -> bool:
     """
-    pre: ai in (0, 1, 3)
+    pre: ai in (0, 1, 3, 7)
     pre: len(body) <= 1
     pre: len(e0) == 32 and len(e1) == 32 and len(e2) == 32 and len(e3) == 32
     post: _
     """
     alg = pick(ai)
-    ks, bs = alg.key_size // 8, alg.block_size // 8
+    ks, bs = RFC_KEY_OCTETS[int(alg)], RFC_BLOCK_OCTETS[int(alg)]
     msg = PGPMessage.new(bytes(body), compression=K.CompressionAlgorithm.Uncompressed, file=False, format='b')
     Feed.reset([e0, e1, e2, e3])
     for ek, ep in ((e0, e1), (e2, e3)):
@@ -105,16 +106,17 @@ def key_encrypt_entropy(ai: int, body: bytes, e0: bytes, e1: bytes, e2: bytes, e
     return True
 
 
-@ob('O13.3', 'key protection: every key and every subkey gets its own IV and its own salt, each a new draw (IV of block size, salt of 8)',
-    'primary + one subkey (RSA, secret octets fixed); four symbolic feed elements; protecting twice draws four more', cond_timeout={'q': 280, 't': 900}, flags=('symmpi',))
-def protect_entropy(e0: bytes, e1: bytes, e2: bytes, e3: bytes) -> bool:
+@ob('O13.3', 'key protection: every key and every subkey gets its own IV and its own salt, each a new draw (IV of block size, salt of 8); changing the passphrase '
+             '(unlock, protect again) draws four new ones', 'primary + one subkey (RSA, secret octets fixed); eight symbolic feed elements', cond_timeout={'q': 280, 't': 900}, flags=('symmpi',))
+def protect_entropy(e0: bytes, e1: bytes, e2: bytes, e3: bytes, e4: bytes, e5: bytes, e6: bytes, e7: bytes) -> bool:
     """
     pre: len(e0) == 16 and len(e1) == 8 and len(e2) == 16 and len(e3) == 8
+    pre: len(e4) == 16 and len(e5) == 8 and len(e6) == 16 and len(e7) == 8
     post: _
     """
     key, sub = key_of(0, 0x81, 2, 3, 4, 0x91, 7)
     Cipher.reset()
-    Feed.reset([e0, e1, e2, e3])
+    Feed.reset([e0, e1, e2, e3, e4, e5, e6, e7])
     key.protect('pw', K.SymmetricKeyAlgorithm.AES128, K.HashAlgorithm.SHA1)
     if [n for n, _ in Feed.calls] != [16, 8, 16, 8]:
         return False
@@ -122,7 +124,14 @@ def protect_entropy(e0: bytes, e1: bytes, e2: bytes, e3: bytes) -> bool:
     if bytes(a.iv) != bytes(e0) or bytes(a.salt) != bytes(e1) or bytes(b.iv) != bytes(e2) or bytes(b.salt) != bytes(e3):
         return False
     encs = [e for e in Cipher.log if e[0] == 'enc']
-    return len(encs) == 2 and encs[0][4] == bytes(e0) and encs[1][4] == bytes(e2)
+    if not (len(encs) == 2 and encs[0][4] == bytes(e0) and encs[1][4] == bytes(e2)):
+        return False
+    with key.unlock('pw'):
+        key.protect('pw2', K.SymmetricKeyAlgorithm.AES128, K.HashAlgorithm.SHA1)
+    if [n for n, _ in Feed.calls] != [16, 8, 16, 8, 16, 8, 16, 8]:
+        return False
+    a, b = key._key.keymaterial.s2k, sub._key.keymaterial.s2k
+    return bytes(a.iv) == bytes(e4) and bytes(a.salt) == bytes(e5) and bytes(b.iv) == bytes(e6) and bytes(b.salt) == bytes(e7)
 
 
 @ob('O13.4', 'the session key never appears in the clear: with a cipher whose output ignores its input the exported message is the same octets whatever the session key is',
@@ -148,5 +157,6 @@ def session_key_not_in_clear(body: bytes, k1: bytes, k2: bytes) -> bool:
 
 
 E32 = [bytes([16 * i + j for j in range(16)] * 2) for i in range(6)]
-SANITY = ['msg_encrypt_entropy(%d, b"x", *E32)' % i for i in range(5)] + ['key_encrypt_entropy(%d, b"", *E32[:4])' % i for i in (0, 1, 3)] + \
-         ['protect_entropy(E32[0][:16], E32[1][:8], E32[2][:16], E32[3][:8])', 'session_key_not_in_clear(b"a", E32[0][:16], E32[1][:16])']
+E32 = E32 + [bytes([200 + i] * 32) for i in range(2)]
+SANITY = ['msg_encrypt_entropy(%d, b"x", *E32[:6])' % i for i in range(9)] + ['key_encrypt_entropy(%d, b"", *E32[:4])' % i for i in (0, 1, 3, 7)] + \
+         ['protect_entropy(E32[0][:16], E32[1][:8], E32[2][:16], E32[3][:8], E32[4][:16], E32[5][:8], E32[6][:16], E32[7][:8])', 'session_key_not_in_clear(b"a", E32[0][:16], E32[1][:16])']
